@@ -571,3 +571,28 @@ V("C04-state-key-raw", "C04", ["C04.R4"], [(STATEFUL, "            stateful_node
 V("C04-evaluate-fresh-state", "C04", ["C04.R4"], [(BASE, "                spec.transform_state,\n                spec,\n                variables=variables,", "                {},\n                spec,\n                variables=variables,")])
 V("C04-getstate-all", "C04", ["C04.R5"], [(SPEC, "            k: v for k, v in self.__dict__.items() if k in self.__dataclass_fields__", "            k: v for k, v in self.__dict__.items() if k != 'transform_state'")])
 V("C04-matrix-reduce-drops-spec", "C04", ["C04.R5"], [("formulaic/model_matrix.py", "        return ModelMatrix, (self.__wrapped__, self._self_model_spec)", "        return ModelMatrix, (self.__wrapped__, None)")])
+
+# ----------------------------------------------------------------------------------------- C10
+V("C10-indices-overlap", "C10", ["C10.R1"], [(SPEC, "            start = end\n", "            start = end - 1\n")])
+V("C10-indices-no-advance", "C10", ["C10.R1"], [(SPEC, "            slices[row[0]] = list(range(start, end))\n            start = end\n", "            slices[row[0]] = list(range(start, end))\n")])
+V("C10-slices-off-by-one", "C10", ["C10.R1"], [(SPEC, "            k: slice(v[0], v[-1] + 1) if v else slice(0, 0)", "            k: slice(v[0], v[-1]) if v else slice(0, 0)")])
+V("C10-column-names-sorted", "C10", ["C10.R1"], [(SPEC, "        return tuple(feature for row in self.__structure for feature in row.columns)", "        return tuple(sorted(feature for row in self.__structure for feature in row.columns))")])
+V("C10-factor-hash-id", "C10", ["C10.R2"], [("formulaic/parser/types/factor.py", "        return self.expr.__hash__()", "        return hash((self.expr, self._kind))")])
+V("C10-variable-indices-unsorted", "C10", ["C10.R3"], [(SPEC, "            variable: sorted(\n                {index for term in terms for index in self.term_indices[term]}\n            )", "            variable: list(\n                {index for term in terms for index in self.term_indices[term]}\n            )")])
+V("C10-subset-parent-order", "C10", ["C10.R4"], [(SPEC, "            structure=[term_structure[term] for term in terms],", "            structure=list(term_structure.values()),")])
+V("C10-subset-missing-ok", "C10", ["C10.R4"], [(SPEC, "        if missing_terms:\n            raise ValueError(", "        if missing_terms and False:\n            raise ValueError(")])
+
+# ----------------------------------------------------------------------------------------- C11
+V("C11-sum-square", "C11", ["C11.R1"], [(CONTRASTS, "        contr = spsparse.eye(n, n - 1).tolil() if sparse else numpy.eye(n, n - 1)", "        contr = spsparse.eye(n, n - 1).tolil() if sparse else numpy.eye(n, n)")])
+V("C11-helmert-sparse-shape", "C11", ["C11.R1"], [(CONTRASTS, "contr = spsparse.lil_matrix((n, n - 1)) if sparse else numpy.zeros((n, n - 1))", "contr = spsparse.lil_matrix((n - 1, n - 1)) if sparse else numpy.zeros((n, n - 1))")])
+V("C11-diff-arange", "C11", ["C11.R1"], [(CONTRASTS, "        contr = numpy.repeat([numpy.arange(1, n)], n, axis=0) / n", "        contr = numpy.repeat([numpy.arange(0, n)], n, axis=0) / n")])
+V("C11-poly-degree", "C11", ["C11.R1"], [(CONTRASTS, "        coding_matrix = poly(scores, degree=n - 1)", "        coding_matrix = poly(scores, degree=n)")])
+V("C11-treatment-no-drop", "C11", ["C11.R1"], [(CONTRASTS, "            matrix = matrix[:, [i for i in range(matrix.shape[1]) if i != drop_level]]", "            matrix = matrix[:, [i for i in range(matrix.shape[1])]]")])
+V("C11-sum-names", "C11", ["C11.R2"], [(CONTRASTS, "        if reduced_rank:\n            return levels[:-1]\n        return levels\n\n    @Contrasts.override\n    def get_coefficient_row_names(\n        self, levels: Sequence[Hashable], reduced_rank: bool = True\n    ) -> Sequence[Hashable]:\n        if reduced_rank:\n            return [\"avg\", *(f\"{level} - avg\" for level in levels[:-1])]",
+                                       "        if reduced_rank:\n            return levels[:-2]\n        return levels\n\n    @Contrasts.override\n    def get_coefficient_row_names(\n        self, levels: Sequence[Hashable], reduced_rank: bool = True\n    ) -> Sequence[Hashable]:\n        if reduced_rank:\n            return [\"avg\", *(f\"{level} - avg\" for level in levels[:-1])]")])
+V("C11-poly-names-range", "C11", ["C11.R2"], [(CONTRASTS, "                for d in range(1, len(levels))\n", "                for d in range(1, len(levels) + 1)\n")])
+V("C11-helmert-full-not-identity", "C11", ["C11.R3"], [(CONTRASTS, "            return spsparse.eye(n).tocsc() if sparse else numpy.eye(n)\n", "            return spsparse.eye(n).tocsc() if sparse else numpy.ones((n, n))\n", 1)])
+V("C11-spans-intercept-always", "C11", ["C11.R3"], [(CONTRASTS, "        return len(levels) > 0 and not reduced_rank", "        return len(levels) > 0")])
+V("C11-format-shared", "C11", ["C11.R4"], [(CONTRASTS, '    FACTOR_FORMAT_REDUCED = "{name}[S.{field}]"', '    FACTOR_FORMAT_REDUCED = "{name}[{field}]"')])
+V("C11-coef-ones-always", "C11", ["C11.R5"], [(CONTRASTS, "        if reduced_rank:\n            coding_matrix = (spsparse if sparse else numpy).hstack(", "        if True:\n            coding_matrix = (spsparse if sparse else numpy).hstack(")])
+V("C11-sum-equiv-local", "C11", [], [(CONTRASTS, "        contr = spsparse.eye(n, n - 1).tolil() if sparse else numpy.eye(n, n - 1)", "        k = n - 1\n        contr = spsparse.eye(n, k).tolil() if sparse else numpy.eye(n, k)")])
